@@ -330,6 +330,11 @@ func (b *c01Builder) stream(dict string, data []byte, allowPad bool) (int, []byt
 	o := &c01Obj{body: dict, isStream: true, lenObj: -1}
 	chain := [][]string{{}, {}, {"FlateDecode"}, {"FlateDecode"}, {"ASCIIHexDecode"}, {"ASCII85Decode"}, {"ASCII85Decode", "FlateDecode"},
 		{"ASCIIHexDecode", "FlateDecode"}, {"FlateDecode", "FlateDecode"}, {"ASCIIHexDecode", "ASCII85Decode"}, {"FlateDecode", "PNG"}}[rng.Intn(11)]
+	if len(chain) == 0 && allowPad && len(data)%3 == 0 {
+		// unfiltered data that begins with a line feed of its own, right after the end-of-line that follows
+		// the keyword stream (white space is harmless where padding is)
+		data = append([]byte("\n"), data...)
+	}
 	enc := data
 	if len(chain) == 2 && chain[1] == "PNG" {
 		if !allowPad {
@@ -690,7 +695,13 @@ func (b *c01Builder) write(root int, stale bool) c01Phys {
 		} else {
 			d = append([]string{"/Length " + ln}, d...)
 		}
-		return fmt.Sprintf("<< %s >>%sstream%s%s%sendstream", subst(strings.Join(d, " ")), b.eol, pdfStreamEOL(), o.enc, b.eol)
+		end := b.eol
+		if len(o.enc) > 0 && o.enc[0] == '\n' {
+			// the end-of-line before endstream is recommended, not required: these streams (whose data begins with
+			// a line feed) are followed by the keyword at once, so every byte of /Length counts
+			end = ""
+		}
+		return fmt.Sprintf("<< %s >>%sstream%s%s%sendstream", subst(strings.Join(d, " ")), b.eol, pdfStreamEOL(), o.enc, end)
 	}
 	nrev := 1
 	if rng.Chance(1, 2) {
